@@ -159,6 +159,10 @@ def rule_scope_order(prog):
                 for q in b["params"] for pp in hir.pat_bindings(q))
             is_none = lt.get("k") == "Path" and last(lt["res"].get("ctor_of", "")) == "None"
             n_sites += 1
+            if is_none and proc_here and _only_used_in_global_position(prog, b, st, parents):
+                # a global-only table next to the scoped one, consulted only where the syntactic position (type expression)
+                # admits nothing but a global entity: that is what SPL scoping asks for (clause `position` below)
+                is_none = False
             out.add(b["d"], "LookupTable literal carries the local table of the procedure in scope", not (is_none and proc_here),
                     bc.loc(st["sp"]), "a LookupTable without local table is built where a procedure is in scope: its parameters "
                     "and variables are invisible to whatever is resolved or proposed through it", ("literal",))
@@ -323,9 +327,259 @@ def rule_scope_order(prog):
                 out.add(b["d"], "names in a procedure body are resolved through the scoped LookupTable", recv_t == LT, fc.loc(lk["sp"]),
                         "the analysis has the procedure's LookupTable but asks the global table directly: a local variable or parameter "
                         "of that name no longer shadows the global declaration (wrong or missing diagnostic)", ("site", "semantic"))
+    # (6) position: types are global entities only and a procedure is not in its own local table.  A handler that resolves a *raw
+    #     identifier token* (cursor identifier, token of the stream) through the scoped table must first tell the syntactic position:
+    #     in a type position (`x: T`, `array [n] of T`) the table builder binds the name in the global scope, so a parameter or
+    #     variable of the same name must not capture it.  Necessary condition decided here: what controls the lookup (conditions,
+    #     guards and the values computed before it - followed into local callees and, for a helper, into its callers) inspects the
+    #     token kinds `:` and `of` (or the NamedType node of the AST); a cursor lookup also the `proc` keyword in front of a header name.
+    n_pos = 0
+    cmap = hir.callers_map(prog, "lsp4spl")
+    for b in feature_bodies(prog):
+        bc = b["_crate"]
+        for n, parents in hir.walk(b["body"]):
+            if n.get("k") != "MethodCall" or n["m"] != "lookup" or not n["args"] or _recv_adt(bc, n) != LT:
+                continue
+            cursor = _is_cursor_ident(bc, n["args"][0])
+            kl = hir.path_local(hir.strip_ref(n["args"][0]))
+            raw_tok = False
+            if kl:
+                for pt in _ctx_pats(parents):
+                    if any(x["id"] == kl["id"] for x in hir.pat_bindings(pt)) and \
+                            any(v.endswith("tokens::TokenType::Ident") for v in hir.pat_variants_all(pt)):
+                        raw_tok = True
+            if not (cursor or raw_tok):
+                continue
+            ms = _position_markers_at(prog, b, n, parents, cmap, 2)
+            n_pos += 1
+            type_ok = {"Colon", "Of"} <= ms or "NamedType" in ms
+            out.add(b["d"], "an identifier in type position is not captured by the local scope", type_ok, bc.loc(n["sp"]),
+                    "the raw identifier is resolved locals-first and nothing that controls this lookup tells a type position (`:` / `of` in "
+                    "front of the identifier, or the NamedType node) from a variable position (found: %s): in `proc p(a: a)` / `var a: a` the "
+                    "type name is answered with the parameter / variable of the same name" % (", ".join(sorted(ms)) or "no position test"),
+                    ("site", "position"))
+            if type_ok:
+                eff = _position_effect(prog, b, n, parents, cmap, 2)
+                n_pos += 1
+                out.add(b["d"], "where the position test answers `global entity`, the local scope is left out", eff, bc.loc(n["sp"]),
+                        "a test for the type position exists, but the branch it guards still carries the procedure's local table (no empty / "
+                        "absent local table, no global lookup there): the test has no effect on the scope the identifier is resolved in",
+                        ("site", "position"))
+            if cursor:
+                n_pos += 1
+                out.add(b["d"], "the name in a procedure header is not captured by a parameter or variable of the same name",
+                        "Proc" in ms or "HeaderName" in ms, bc.loc(n["sp"]),
+                        "in `proc a(a: int)` the declared name `a` is resolved through the procedure's own local table and comes back as "
+                        "the parameter: nothing that controls this lookup tells the header name (`proc` in front of it) apart",
+                        ("site", "position"))
+    if n_pos < 8:
+        out.missing("scoped lookups of raw identifier tokens in feature handlers (found %d)" % n_pos)
+    # (7) preempt: the binding of the cursor identifier is decided by the scoped lookup, not by comparing its text with the name of the
+    #     enclosing procedure first (a variable named like its procedure is a legal local that shadows the procedure)
+    for b in feature_bodies(prog):
+        bc = b["_crate"]
+        lks = [n for n in hir.nodes(b["body"], "MethodCall") if n["m"] == "lookup" and n["args"] and _recv_adt(bc, n) == LT
+               and _is_cursor_ident(bc, n["args"][0])]
+        if not lks:
+            continue
+        kp = place(hir.strip_ref(lks[0]["args"][0]))
+        pre = None
+        branches = [(x["cond"], x["then"], x) for x in hir.nodes(b["body"], "If")] + \
+                   [(x["guard"], x["body"], x) for x in hir.nodes(b["body"], "Arm") if x.get("guard") is not None]
+        for cond, then, iff in branches:
+            cmp_ = [x for x in hir.nodes(cond, "Binary") if x["op"] in ("Eq", "==") and
+                    kp in (place(hir.strip_ref(x["l"])), place(hir.strip_ref(x["r"])))]
+            if not cmp_:
+                continue
+            if any(x.get("k") == "Field" and x["name"] == "local_table" for x in hir.nodes(cond)) or \
+                    any(x.get("k") == "MethodCall" and x["m"] == "lookup" for x in hir.nodes(cond)):
+                continue
+            then_has_lookup = any(x is l_ for x in hir.nodes(then) for l_ in lks)
+            then_uses_key = any(place(hir.strip_ref(a)) == kp for x in hir.nodes(then, "Call") for a in x["args"])
+            if not then_has_lookup and then_uses_key:
+                pre = iff
+        n_sites += 1
+        out.add(b["d"], "the scoped lookup decides the binding of the cursor identifier (no name comparison in front of it)", pre is None,
+                bc.loc((pre or lks[0])["sp"]),
+                "the identifier's text is compared with a name and, on equality, resolved without the local table: a local variable or "
+                "parameter that has the name of the enclosing procedure is answered as the procedure", ("site", "preempt"))
     if n_sites < 5:
         out.missing("LookupTable lookups in feature handlers (found %d)" % n_sites)
     return out
+
+
+TT_ = "spl_frontend::tokens::TokenType::"
+
+
+def _markers_in(prog, root, crate):
+    """Which syntactic-position tests does `root` (followed three levels into local callees) make?"""
+    ms = set()
+    for n in hir.nodes_deep(prog, root, 3, crate=crate):
+        pats = []
+        k = n.get("k")
+        if k == "Match":
+            pats = [a["pat"] for a in n["arms"]]
+        elif k == "LetExpr":
+            pats = [n["pat"]]
+        elif k == "Let" and n.get("els"):
+            pats = [n["pat"]]
+        for pt in pats:
+            for v in hir.pat_variants_all(pt):
+                if v.startswith(TT_):
+                    ms.add(last(v))
+                elif v.endswith("ast::TypeExpression::NamedType"):
+                    ms.add("NamedType")
+        if k == "Path" and n["res"].get("k") == "Def" and (n["res"].get("ctor_of") or "").startswith(TT_):
+            ms.add(last(n["res"]["ctor_of"]))
+        if k == "Binary" and n["op"] in ("Eq", "==", "Ne", "!="):
+            # range of the cursor identifier compared with the range of a declaration's name
+            def name_range(e):
+                fs = [x for x in hir.nodes(e) if x.get("k") == "Field" and x["name"] == "name"]
+                rg = [x for x in hir.nodes(e) if (x.get("k") == "Field" and x["name"] == "range") or
+                      (x.get("k") == "MethodCall" and x["m"] in ("to_range", "to_text_range"))]
+                return bool(fs) and bool(rg)
+            if name_range(n["l"]) or name_range(n["r"]):
+                ms.add("HeaderName")
+    return ms
+
+
+def _controls(b, node, parents):
+    """Expressions evaluated before `node` that can influence what it computes: preceding statements of the enclosing blocks,
+    conditions / guards / scrutinees of the enclosing branches, receivers of enclosing method chains, and the node itself."""
+    # the node's own operands (not the callee's body: what the callee does happens afterwards)
+    res = list(node.get("args") or []) + ([node["recv"]] if node.get("recv") else [])
+    chain = list(parents) + [node]
+    for i, p in enumerate(chain[:-1]):
+        nxt = chain[i + 1]
+        k = p.get("k")
+        if k == "Block":
+            for s_ in p["stmts"]:
+                if s_ is nxt:
+                    break
+                res.append(s_)
+        elif k == "If" and nxt is not p.get("cond"):
+            res.append(p["cond"])
+        elif k == "Match" and nxt is not p.get("scrut"):
+            res.append(p["scrut"])
+        elif k == "Arm" and p.get("guard") is not None and nxt is not p["guard"]:
+            res.append(p["guard"])
+        elif k == "MethodCall" and nxt is not p.get("recv"):
+            res.append(p["recv"])
+    return res
+
+
+def _position_markers_at(prog, b, node, parents, cmap, depth):
+    bc = b["_crate"]
+    ms = set()
+    for r in _controls(b, node, parents):
+        ms |= _markers_in(prog, r, bc)
+    param_ids = {pp["id"] for q in b["params"] for pp in hir.pat_bindings(q)}
+    operands = {(hir.path_local(x) or {}).get("id") for r in (list(node.get("args") or []) + ([node["recv"]] if node.get("recv") else []))
+                for x in hir.nodes(r)}
+    if depth > 0 and (operands & param_ids):
+        # a helper that receives the identifier / the context: what its callers did before the call counts as well (all of them)
+        callers = [prog.body(c) for c in sorted(cmap.get(b["p"], set()) - {b["p"]})]
+        callers = [cb for cb in callers if cb is not None and cb["_crate"] is bc]
+        per = []
+        for cb in callers:
+            for cn, cparents in hir.walk(cb["body"]):
+                if cn.get("k") in ("Call", "MethodCall") and hir.callee(cn) == b["p"]:
+                    per.append(_position_markers_at(prog, cb, cn, cparents, cmap, depth - 1))
+        if per:
+            ms |= set.intersection(*per)
+    return ms
+
+
+def _drops_local_scope(prog, root, crate, none_tables):
+    for x in hir.nodes_deep(prog, root, 1, crate=crate):
+        k = x.get("k")
+        if k == "Struct":
+            for f in x["fields"]:
+                if f["name"] == "local_table":
+                    v = hir.strip(f["e"])
+                    from_local = any(y.get("k") == "Field" and y["name"] == "local_table" for y in hir.nodes(v)) or \
+                        any((hir.callee_display(y) or "").endswith("get_local_table") for y in hir.nodes(v, "Call"))
+                    if not from_local:
+                        return True
+        elif k == "MethodCall" and x["m"] == "lookup" and _recv_adt(crate, x) == GT:
+            return True
+        elif k == "Path" and (hir.path_local(x) or {}).get("id") in none_tables:
+            return True
+    return False
+
+
+def _position_effect(prog, b, node, parents, cmap, depth):
+    """True / False / None: does a branch guarded by a type-position test drop the local scope?"""
+    bc = b["_crate"]
+    roots = list(_controls(b, node, parents))
+    param_ids = {pp["id"] for q in b["params"] for pp in hir.pat_bindings(q)}
+    operands = {(hir.path_local(x) or {}).get("id") for r in (list(node.get("args") or []) + ([node["recv"]] if node.get("recv") else []))
+                for x in hir.nodes(r)}
+    if depth > 0 and (operands & param_ids):
+        for c in sorted(cmap.get(b["p"], set()) - {b["p"]}):
+            cb = prog.body(c)
+            if cb is None or cb["_crate"] is not bc:
+                continue
+            for cn, cparents in hir.walk(cb["body"]):
+                if cn.get("k") in ("Call", "MethodCall") and hir.callee(cn) == b["p"]:
+                    roots += _controls(cb, cn, cparents)
+    seen_guard = False
+    for r in roots:
+        all_nodes = list(hir.nodes_deep(prog, r, 3, crate=bc))
+        none_tables = set()
+        for x in all_nodes + list(hir.nodes(b["body"])):
+            if x.get("k") == "Let" and x["pat"].get("k") == "Binding" and x.get("init") is not None:
+                iv = hir.strip(x["init"])
+                if iv.get("k") == "Struct" and iv.get("adt") == LT:
+                    f = {y["name"]: y["e"] for y in iv["fields"]}
+                    ltv = hir.strip(f.get("local_table", {}))
+                    if ltv.get("k") == "Path" and last(ltv["res"].get("ctor_of", "")) == "None":
+                        none_tables.add(x["pat"]["id"])
+        for x in all_nodes:
+            guarded = None
+            if x.get("k") == "If":
+                cond, guarded = x["cond"], x["then"]
+                if hir.strip(cond).get("k") == "Unary":
+                    guarded = x.get("else")
+            elif x.get("k") == "Arm" and x.get("guard") is not None:
+                cond, guarded = x["guard"], x["body"]
+            else:
+                continue
+            ms = _markers_in(prog, cond, bc)
+            if not ({"Colon", "Of"} <= ms or "NamedType" in ms) or guarded is None:
+                continue
+            seen_guard = True
+            if _drops_local_scope(prog, guarded, bc, none_tables):
+                return True
+    return False if seen_guard else None
+
+
+def _only_used_in_global_position(prog, b, lit, parents):
+    """Is the LookupTable literal `lit` (bound to a local) consulted only in the then-branch of a test for a type position?"""
+    bc = b["_crate"]
+    let = None
+    for p in reversed(parents):
+        if p.get("k") == "Let" and p["pat"].get("k") == "Binding":
+            let = p
+            break
+    if let is None:
+        return False
+    lid = let["pat"]["id"]
+    uses = [(n, ps) for n, ps in hir.walk(b["body"]) if (hir.path_local(n) or {}).get("id") == lid]
+    if not uses:
+        return False
+    for n, ps in uses:
+        ok = False
+        chain = list(ps) + [n]
+        for i, p in enumerate(chain[:-1]):
+            if p.get("k") == "If" and chain[i + 1] is p.get("then"):
+                ms = _markers_in(prog, p["cond"], bc)
+                neg = hir.strip(p["cond"]).get("k") == "Unary"
+                if not neg and ({"Colon", "Of"} <= ms or "NamedType" in ms):
+                    ok = True
+        if not ok:
+            return False
+    return True
 
 
 # ------------------------------------------------------------------ ENTRY-GUARD / LOOKUP-NOPANIC / ENTRY-KIND
